@@ -322,10 +322,24 @@ fn rank_map(c: &Coll, label: &str) -> HashMap<u64, u64> {
 struct Client {
     addr: std::net::SocketAddr,
     rr: Option<RespReader>,
+    /// how requests are put on the wire: 0 = HTTP/1.1 with an origin-form target,
+    /// 1 = HTTP/1.1 with an absolute-form target (`GET http://localhost/… HTTP/1.1`),
+    /// 2 = HTTP/2 (one connection per request)
+    form: u8,
 }
 
 impl Client {
     fn get(&mut self, target: &str) -> Option<RawResponse> {
+        if self.form == 2 {
+            for _attempt in 0..3 {
+                if let Some(r) = h2_roundtrip(self.addr, "GET", target, &[], b"", true) {
+                    return Some(r);
+                }
+            }
+            return None;
+        }
+        let target_owned = if self.form == 1 { format!("http://localhost{}", target) } else { target.to_string() };
+        let target = target_owned.as_str();
         for _attempt in 0..4 {
             if self.rr.is_none() {
                 match connect(self.addr) {
@@ -495,21 +509,31 @@ fn main() {
         let my: Vec<(usize, u64, Option<u64>)> = jobs.iter().filter(|j| j.0 == mi).cloned().collect();
         let ranks = ranks.clone();
         handles.push(std::thread::spawn(move || {
-            let mut cl = Client { addr, rr: None };
+            let mut cl = Client { addr, rr: None, form: 0 };
             let m = &MODES[mi];
             let mut res = Vec::new();
-            for (_, n, l) in my {
+            for (k, (_, n, l)) in my.into_iter().enumerate() {
+                // the protocol version and the form of the request target do not matter to a scan:
+                // some scans use absolute-form targets, some HTTP/2 (not the 25000-item ones: one
+                // connection per request)
+                cl.form = match k % 7 {
+                    3 => 1,
+                    5 if n <= 10001 => 2,
+                    _ => 0,
+                };
+                cl.rr = None;
                 let r = scan(&mut cl, m, n, l, &ranks[&(n, m.label)]);
-                res.push((m.label, n, l, r));
+                res.push((m.label, n, l, r, cl.form));
             }
             res
         }));
     }
     for h in handles {
-        for (label, n, l, r) in h.join().unwrap() {
+        for (label, n, l, r, form) in h.join().unwrap() {
             id += 1;
             out.line(&format!(
-                "scan c{} {} {} {} => {}",
+                "scan c{}{} {} {} {} => {}",
+                ["", "abs", "h2"][form as usize],
                 id,
                 label,
                 n,
